@@ -125,7 +125,26 @@ fn run_library(value: &str, is_file: bool) -> Option<(String, Result<(), String>
         return None;
     }
     let out = String::from_utf8_lossy(&buf.borrow()).to_string();
-    Some((out, res.map(|_| ()).map_err(|e| e.to_string())))
+    // `!print` lines write to the process's stdout while the text is PARSED (once per parse, before
+    // anything runs): the library run of a text that parses printed each of them exactly once
+    let text = if is_file { std::fs::read_to_string(value).unwrap_or_default() } else { value.to_string() };
+    let mut printed = String::new();
+    if text.contains("!print") {
+        if let Ok(instructions) = duckscript::parser::parse_text(&text) {
+            for i in instructions {
+                if let duckscript::types::instruction::InstructionType::PreProcess(p) = i.instruction_type {
+                    if p.command.as_deref() == Some("print") {
+                        for a in p.arguments.unwrap_or_default() {
+                            printed.push_str(&a);
+                            printed.push(' ');
+                        }
+                        printed.push('\n');
+                    }
+                }
+            }
+        }
+    }
+    Some((format!("{}{}", printed, out), res.map(|_| ()).map_err(|e| e.to_string())))
 }
 
 /// the property's relation for file / eval runs: status 0 <=> library Ok; on failure a non-zero
@@ -308,7 +327,7 @@ fn good_line(rng: &mut Rng) -> String {
         3 => format!("{} = set {}", rng.pick_s(&LOWER_NAMES), rng.pick_s(&WORDS)),
         4 => format!("{} echo {}", rng.pick_s(&LOWER_LABELS), words(rng)),
         5 => format!("{} {} = echo {}", rng.pick_s(&LOWER_LABELS), rng.pick_s(&LOWER_NAMES), words(rng)),
-        6 => rng.pick_s(&["", "# Comment With Caps", "   ", "echo a # Trailing", "\techo tab"]).to_string(),
+        6 => rng.pick_s(&["", "# Comment With Caps", "   ", "echo a # Trailing", "\techo tab", "x =", "my_var =", ":l1 out ="]).to_string(),
         7 => rng.pick_s(&LOWER_LABELS).to_string(),
         // (`pwd` prints the working directory: the executable must run the script where it was started, like the library)
         _ => rng.pick_s(&["exit 0", "x = is_defined Y", "noop A B", "y = not false", "unset X", "pwd", "d = pwd"]).to_string(),
@@ -318,12 +337,15 @@ fn good_line(rng: &mut Rng) -> String {
 /// a line with an upper-case letter in label, command or output (runs fine unless the command
 /// is the misspelt part: command names are case-sensitive)
 fn mixed_line(rng: &mut Rng) -> String {
-    match rng.below(6) {
+    match rng.below(8) {
         0 => format!("{} echo {}", rng.pick_s(&MIXED_LABELS), words(rng)),
         1 => format!("{} = set {}", rng.pick_s(&MIXED_NAMES), rng.pick_s(&WORDS)),
         2 => format!("{} {}", rng.pick_s(&["Echo", "ECHO", "eCho", "Set", "std::Echo"]), words(rng)),
         3 => format!("{} {} = {} a", rng.pick_s(&MIXED_LABELS), rng.pick_s(&MIXED_NAMES), rng.pick_s(&["Echo", "echo"])),
         4 => rng.pick_s(&MIXED_LABELS).to_string(),
+        // an output variable without a command (the documented way to unset it)
+        5 => format!("{} =", rng.pick_s(&MIXED_NAMES)),
+        6 => format!("{} {} =", rng.pick_s(&LOWER_LABELS), rng.pick_s(&MIXED_NAMES)),
         _ => format!("{} = echo {}", rng.pick_s(&MIXED_NAMES), words(rng)),
     }
 }
@@ -496,7 +518,15 @@ impl Prop for C20Prop {
         let text = script(rng, kind, mixed);
         let mtag = if mixed { "spelling:mixed-case" } else { "spelling:lower-case" };
         let dom = in_domain_text(&text);
-        match rng.below(12) {
+        let form = rng.below(12);
+        // run forms: sometimes a `!print` line (printed once, when the text is parsed)
+        let text = if (3..=6).contains(&form) && kind != Kind::ParseError && rng.chance(1, 3) {
+            let mut lines: Vec<String> = text.split('\n').map(|l| l.to_string()).collect();
+            let at = rng.below(lines.len() + 1);
+            lines.insert(at, format!("!print {}", rng.pick_s(&["Loading Script", "a  b", "\"two words\" x", "", "${x} %{y}"])));
+            lines.join("\n")
+        } else { text };
+        match form {
             0 | 1 | 2 => case(format!("lint {}", enc_str(&text)), vec!["op:lint", ktag, mtag], dom),
             3 | 4 => case(cli_req(&[FILE_ARG], Some(&text)), vec!["form:file", ktag, mtag], dom),
             5 => case(cli_req(&["-e", &text], None), vec!["form:-e", ktag, mtag], dom),
